@@ -26,7 +26,7 @@ PROGS_QUICK = [ESC + "simple-escape", ESC + "builtins-escape", ESC + "escape-loc
 PROGS_THOROUGH = PROGS_QUICK + [ESC + "trivial", TAINT + "closures", TAINT + "example1", TAINT + "fields",
                                 TAINT + "interfaces", TAINT + "panics", TAINT + "selects"]
 OPTS = {"quick": ["-pairs", "40", "-triples", "20", "-random", "30", "-perms", "5", "-perm-mono", "1", "-mono-cap", "30",
-                  "-weak-transfer", "900"],
+                  "-weak-transfer", "700"],
         "thorough": ["-pairs", "400", "-triples", "200", "-random", "300", "-perms", "12", "-perm-mono", "4", "-mono-cap", "0",
                      "-weak-transfer", "6000"]}
 
@@ -108,8 +108,8 @@ def run(chk):
         out = os.path.join(work, "%02d-%s" % (i, os.path.basename(p)))
         cmd = [os.path.join(vlib.BIN, "c15dump"), "-out", out, "-seed", str(chk.seed * 131 + i)] + OPTS[tier] + [os.path.join(vlib.REPO, p)]
         procs.append((p, out, cmd, subprocess.Popen(cmd, env=vlib.GOENV, stdout=subprocess.PIPE, stderr=subprocess.STDOUT, text=True)))
-    # regression program of the known finding mono-fresh-tmp-node: json.Marshal with a pointer-receiver MarshalJSON in
-    # a loop; the block fixpoint is not reached.  The dump has a CPU-time watchdog (exit status 4).
+    # regression program of the (repaired) defect mono-fresh-tmp-node: json.Marshal with a pointer-receiver MarshalJSON
+    # in a loop; before the repair the block fixpoint was never reached.  The dump has a CPU-time watchdog (exit status 4).
     regress = os.path.join(vlib.VERIF, "corpus", "regress", "c15-json-loop")
     rout = os.path.join(work, "regress-json-loop")
     rcmd = [os.path.join(vlib.BIN, "c15dump"), "-out", rout, "-cpu-limit", "20", "-perms", "0", "-pairs", "1", "-triples", "0",
@@ -155,7 +155,7 @@ def run(chk):
             % (open(os.path.join(rout, "nonterm.txt")).read(), " ".join(rcmd)))
         chk.violation("mono-fresh-tmp-node", "block fixpoint not reached on corpus/regress/c15-json-loop (fresh tmp node per application)", d)
     elif rproc.returncode == 0:
-        chk.notes.append("stale_known_finding: corpus/regress/c15-json-loop now reaches its fixpoint")
+        chk.notes.append("regression corpus/regress/c15-json-loop reaches its fixpoint (mono-fresh-tmp-node is repaired in /repo)")
     else:
         chk.notes.append("regression program c15-json-loop could not be analysed (rc %s)" % rproc.returncode)
     # run the extracted model on every cases file (parallel)
@@ -276,8 +276,8 @@ def run(chk):
                           % (len(tie_broken), dict(byop), os.path.basename(p), cid), d, no_input=True)
     chk.proof_broken(failed, found_concrete)
 
-    if "mono-fresh-tmp-node" not in seen_keys and any("stdlib-escape" in p for p in progs):
-        chk.notes.append("stale_known_finding: mono-fresh-tmp-node no longer observed on stdlib-escape")
+    if "mono-call-load-on-fresh-subnode" not in seen_keys:
+        chk.cov["stale_known_finding"] = "mono-call-load-on-fresh-subnode not observed in this run"
     stats["go_violation_keys"] = len(seen_keys)
     chk.cov["evaluations"] = stats["cases"] + stats["law_pairs"] + stats["law_triples"] + stats["mono_pairs_checked"] + \
         stats["weakened_transfer_checked"] + stats["prim_mono_checked"]
@@ -295,8 +295,10 @@ def run(chk):
         "NOT proved (tied only): monotonicity of the 40 cases of transferFunction and of EscapeGraph.Call; WeakAssign/LoadField/StoreField "
         "with subnode recursion (depend on the node group's mutable subnode/load tables); termination of the concrete analysis "
         "(needs a finite node universe)",
-        "known finding mono-fresh-tmp-node: invokeMethodDirectly allocates a fresh node per application (the transfer function is not a "
-        "function of the graph; non-termination inside loops, corpus/regress/c15-json-loop)"]
+        "repaired finding mono-fresh-tmp-node (invokeMethodDirectly allocated a fresh node per application; non-termination inside "
+        "loops, corpus/regress/c15-json-loop) - a reappearance is a VIOLATION",
+        "known finding mono-call-load-on-fresh-subnode: EscapeGraph.Call is not monotone (load-node rule consults the status of the "
+        "partially updated graph for field subnodes created by the call itself), corpus/regress/c15-call-load"]
     chk.assumptions += [
         "graphs inside the invariant Inv (dom edges = dom status, endpoints present, flags non-empty, status >= intrinsic, closed along "
         "edges): %d captured graphs violated it" % stats["captured_graphs_violating_inv"],
